@@ -156,8 +156,7 @@ theorem qmpt_walk_eq_born [Field K] [DecidableEq K] (r : K) (povm : List (List K
 /-- C08.1 (QMPT) the circuit walk WITH the code's thresholds (`eps_zero` clipping and renormalisation of the ensemble,
 unrenormalised post states, `< eps_zero` members skipped, `truncate_and_normalize` of every (Povm, State) step) equals the
 ideal joint probabilities when no outcome probability is clipped (`p_x > eps_zero ≥ 0`) and every conditional
-distribution is proper (entries 0 or ≥ `atol`, sum 1). Boundary objects (clipped outcomes) are covered by the
-correspondence op `circuiteps` only. -/
+distribution is proper (entries 0 or ≥ `atol`, sum 1). Boundary objects with exact zeros: `qmpt_walk_eps_eq_born_boundary`. -/
 theorem qmpt_walk_eps_eq_born [Field K] [LinearOrder K] [IsStrictOrderedRing K] (r epsZero epsTrunc : K)
     (povm : List (List K)) (hss : List (List (List K))) (rho : List K) (h0 : 0 ≤ epsZero)
     (h1 : ∀ hs ∈ hss, ¬ r * firstEntry (matVec hs rho) ≤ epsZero)
@@ -195,6 +194,44 @@ theorem qmpt_walk_eps_eq_born [Field K] [LinearOrder K] [IsStrictOrderedRing K] 
   exact mul_div_cancel_left₀ _ hne
 
 
+/-- C08.1 (QMPT) the thresholded walk on BOUNDARY objects: outcomes with `p_x ≤ eps_zero` are clipped (`truncate`), the
+ensemble is renormalised by the sum of the remaining probabilities, clipped members contribute zeros.  If the clipped
+outcomes have Born value exactly 0 on every tester element (projective instruments probed with eigenstates: `hs_x ρ = 0`),
+the remaining probabilities sum to one and their conditional distributions are proper, the coded circuit still equals the
+ideal joint distribution.  (Outcomes with `0 < p_x ≤ eps_zero` are genuinely changed by the code; that case stays with
+the `circuiteps` correspondence.) -/
+theorem qmpt_walk_eps_eq_born_boundary [Field K] [LinearOrder K] [IsStrictOrderedRing K] (r epsZero epsTrunc : K)
+    (povm : List (List K)) (hss : List (List (List K))) (rho : List K) (h0 : 0 < epsZero)
+    (hsum : lsum (rawProbs r epsZero hss rho) = 1)
+    (hclip : ∀ hs ∈ hss, r * firstEntry (matVec hs rho) ≤ epsZero → ∀ e ∈ povm, ldot e (matVec hs rho) = 0)
+    (hprop : ∀ hs ∈ hss, ¬ r * firstEntry (matVec hs rho) ≤ epsZero →
+      (∀ q ∈ bornPovmState povm ((matVec hs rho).map (· / (r * firstEntry (matVec hs rho)))), q < epsTrunc → q = 0) ∧
+      lsum (bornPovmState povm ((matVec hs rho).map (· / (r * firstEntry (matVec hs rho))))) = 1) :
+    circuitPovmMprocessStateEps r epsZero epsTrunc povm hss rho = bornPovmMprocessState povm hss rho := by
+  unfold circuitPovmMprocessStateEps bornPovmMprocessState
+  unfold rawProbs at hsum
+  simp only [hsum, div_one, List.map_id', ite_self]
+  rw [zip_zip_map_self, List.flatMap_map, List.flatMap_map]
+  apply List.flatMap_congr
+  intro hs hhs
+  by_cases hp : r * firstEntry (matVec hs rho) ≤ epsZero
+  · simp only [hp, if_true, h0]
+    simp only [bornPovmGateState, bornPovmState]
+    apply List.map_congr_left
+    intro e he
+    exact (hclip hs hhs hp e he).symm
+  · have hlt : epsZero < r * firstEntry (matVec hs rho) := lt_of_not_ge hp
+    have hne : r * firstEntry (matVec hs rho) ≠ 0 := ne_of_gt (lt_trans h0 hlt)
+    simp only [hp, if_false, hne, not_lt_of_gt hlt]
+    rw [truncNorm_id_zero_or_large' epsTrunc _ (hprop hs hhs hp).1 (hprop hs hhs hp).2]
+    simp only [bornPovmGateState, bornPovmState, List.map_map]
+    apply List.map_congr_left
+    intro e _
+    simp only [Function.comp_apply]
+    rw [ldot_comm, ldot_div_left, ldot_comm, ← mul_div_assoc]
+    exact mul_div_cancel_left₀ _ hne
+
+
 /-- the same, lifted to the executed `qmptCircuitWalkEps` (driver op `circuiteps`) for all schedules. -/
 theorem qmptCircuitWalkEps_eq [Field K] [LinearOrder K] [IsStrictOrderedRing K] (flag : Bool)
     (r epsZero epsTrunc : K) (n m : Nat) (states : List (List K)) (povms : List (List (List K)))
@@ -218,6 +255,33 @@ theorem qmptCircuitWalkEps_eq [Field K] [LinearOrder K] [IsStrictOrderedRing K] 
       exact qmpt_walk_eps_eq_born r epsZero epsTrunc povm _ rho h0
         (fun hs' hh => (hp (i, j) hij rho hs povm hq hs' hh).1)
         (fun hs' hh => (hp (i, j) hij rho hs povm hq hs' hh).2)
+
+/-- the boundary case lifted to the executed `qmptCircuitWalkEps` for all schedules. -/
+theorem qmptCircuitWalkEps_eq_boundary [Field K] [LinearOrder K] [IsStrictOrderedRing K] (flag : Bool)
+    (r epsZero epsTrunc : K) (n m : Nat) (states : List (List K)) (povms : List (List (List K)))
+    (scheds : List (Nat × Nat)) (var : List K) (h0 : 0 < epsZero)
+    (hp : ∀ ij ∈ scheds, ∀ rho, states[ij.1]? = some rho → ∀ povm, povms[ij.2]? = some povm →
+      lsum (rawProbs r epsZero (mprocessOf flag n m var) rho) = 1 ∧
+      ∀ hs ∈ mprocessOf flag n m var,
+        (r * firstEntry (matVec hs rho) ≤ epsZero → ∀ e ∈ povm, ldot e (matVec hs rho) = 0) ∧
+        (¬ r * firstEntry (matVec hs rho) ≤ epsZero →
+          (∀ q ∈ bornPovmState povm ((matVec hs rho).map (· / (r * firstEntry (matVec hs rho)))), q < epsTrunc → q = 0) ∧
+          lsum (bornPovmState povm ((matVec hs rho).map (· / (r * firstEntry (matVec hs rho))))) = 1)) :
+    qmptCircuitWalkEps flag r epsZero epsTrunc n m states povms scheds var =
+      qmptCircuit flag n m states povms scheds var := by
+  unfold qmptCircuitWalkEps qmptCircuit
+  apply mapM_opt_congr
+  rintro ⟨i, j⟩ hij
+  cases hs : states[i]? with
+  | none => simp [hs]
+  | some rho =>
+    cases hq : povms[j]? with
+    | none => simp [hs, hq]
+    | some povm =>
+      simp only [hs, hq, Option.bind_eq_bind, Option.bind_some, Option.pure_def, Option.some.injEq]
+      have h := hp (i, j) hij rho hs povm hq
+      exact qmpt_walk_eps_eq_born_boundary r epsZero epsTrunc povm _ rho h0 h.1
+        (fun hs' hh => (h.2 hs' hh).1) (fun hs' hh => (h.2 hs' hh).2)
 
 /-- C08.1 (QMPT) lifted to the executed circuit walk (driver op `circuit … walk=1`): if on every scheduled tester state
 no outcome of the measurement process built from `var` has `p_x = 0`, the walked circuit of all schedules equals the
@@ -719,5 +783,11 @@ example : circuitPovmMprocessStateEps (K := Rat) 1 (1/100000000) (1/100000000000
   decide +kernel
 example : circuitPovmMprocessStateEps (K := Rat) 1 (1/100000000) (1/10000000000000) [[1/2, 1/2], [1/2, -1/2]]
     [[[1, 0], [0, 1]], [[0, 0], [0, 0]]] [1, 1/2] = [3/4, 1/4, 0, 0] := by decide +kernel
+
+/-- the hypotheses of `qmpt_walk_eps_eq_born_boundary` on that boundary instance: the clipped second outcome has Born
+value 0, the remaining probability is 1 -/
+example : rawProbs (K := Rat) 1 (1/100000000) [[[1, 0], [0, 1]], [[0, 0], [0, 0]]] [1, 1/2] = [1, 0] ∧
+    bornPovmMprocessState (K := Rat) [[1/2, 1/2], [1/2, -1/2]] [[[1, 0], [0, 1]], [[0, 0], [0, 0]]] [1, 1/2] =
+      [3/4, 1/4, 0, 0] := by decide +kernel
 
 end QM.C08
